@@ -87,3 +87,10 @@ func (c *Client) VerifState() uint32 { return c.state.Load() }
 
 // VerifClientStateOpen is the state of a client whose handshake completed.
 const VerifClientStateOpen = clientStateOpen
+
+// VerifSetCount sets the session's send counter, as if that many packets had been sent.
+func (c *Handle) VerifSetCount(n uint64) {
+	c.ss.m.Lock()
+	defer c.ss.m.Unlock()
+	c.ss.count = n
+}
